@@ -462,6 +462,43 @@ func init() {
 		}
 		return mkConst(64, ^uint64(0))
 	}
+	// three-way comparison (strings.Compare, bytes.Compare, cmp.Compare on strings): forks into <, ==, >
+	cmp3 := func(m *Machine, fr *frame, a, b str) value {
+		if m.branch(strLess(a, b, false), fr) {
+			return mkConst(64, ^uint64(0))
+		}
+		if m.branch(strEq(a, b), fr) {
+			return mkConst(64, 0)
+		}
+		return mkConst(64, 1)
+	}
+	stubs["internal/bytealg.CompareString"] = func(m *Machine, fr *frame, fn *ssa.Function, args []value) value {
+		return cmp3(m, fr, args[0].(str), args[1].(str))
+	}
+	stubs["internal/bytealg.abigen_runtime_cmpstring"] = stubs["internal/bytealg.CompareString"]
+	stubs["internal/bytealg.Compare"] = func(m *Machine, fr *frame, fn *ssa.Function, args []value) value {
+		return cmp3(m, fr, mkStr(byteSliceToTerms(args[0].(slice))), mkStr(byteSliceToTerms(args[1].(slice))))
+	}
+	stubs["internal/bytealg.Count"] = func(m *Machine, fr *frame, fn *ssa.Function, args []value) value {
+		bs := byteSliceToTerms(args[0].(slice))
+		c := args[1].(*Term)
+		n := uint64(0)
+		for _, b := range bs {
+			if m.branch(mkEq(b, c), fr) {
+				n++
+			}
+		}
+		return mkConst(64, n)
+	}
+	stubs["internal/bytealg.Index"] = func(m *Machine, fr *frame, fn *ssa.Function, args []value) value {
+		a, b := mkStr(byteSliceToTerms(args[0].(slice))), mkStr(byteSliceToTerms(args[1].(slice)))
+		for i := 0; i+b.length() <= a.length(); i++ {
+			if m.branch(strEq(a.slice(i, i+b.length()), b), fr) {
+				return mkConst(64, uint64(i))
+			}
+		}
+		return mkConst(64, ^uint64(0))
+	}
 	stubs["internal/bytealg.CountString"] = func(m *Machine, fr *frame, fn *ssa.Function, args []value) value {
 		s := args[0].(str)
 		c := args[1].(*Term)
@@ -595,6 +632,35 @@ func init() {
 		}
 		return flagCell(m, args[1])
 	}
+	// the Var forms store into the caller's variable
+	stubs["flag.StringVar"] = func(m *Machine, fr *frame, fn *ssa.Function, args []value) value {
+		name := concStrArg(args[1])
+		v := args[2]
+		if x, ok := m.flagStr[name]; ok {
+			v = x
+		}
+		fr.store(args[0].(pointer), v)
+		return nil
+	}
+	stubs["flag.BoolVar"] = func(m *Machine, fr *frame, fn *ssa.Function, args []value) value {
+		name := concStrArg(args[1])
+		v := args[2]
+		if x, ok := m.flagBool[name]; ok {
+			v = x
+		}
+		fr.store(args[0].(pointer), v)
+		return nil
+	}
+	stubs["flag.IntVar"] = func(m *Machine, fr *frame, fn *ssa.Function, args []value) value {
+		fr.store(args[0].(pointer), args[2])
+		return nil
+	}
+	stubs["flag.NArg"] = func(m *Machine, fr *frame, fn *ssa.Function, args []value) value { return mkConst(64, 0) }
+	stubs["flag.NFlag"] = func(m *Machine, fr *frame, fn *ssa.Function, args []value) value {
+		return mkConst(64, uint64(len(m.flagStr)+len(m.flagBool)))
+	}
+	stubs["flag.Args"] = func(m *Machine, fr *frame, fn *ssa.Function, args []value) value { return slice{} }
+	stubs["flag.Parsed"] = func(m *Machine, fr *frame, fn *ssa.Function, args []value) value { return termTrue }
 	stubs["flag.Int"] = func(m *Machine, fr *frame, fn *ssa.Function, args []value) value { return flagCell(m, args[1]) }
 	stubs["flag.Func"] = func(m *Machine, fr *frame, fn *ssa.Function, args []value) value {
 		m.flagFuncs = append(m.flagFuncs, flagFunc{concStrArg(args[0]), args[2]})
@@ -675,12 +741,68 @@ func init() {
 		}
 		return tuple{mkConst(64, uint64(exit)), out, errs}
 	}
-	stubs["sync/atomic.LoadUint32"] = func(m *Machine, fr *frame, fn *ssa.Function, args []value) value {
-		return fr.load(args[0].(pointer))
+	// sync/atomic: single-threaded execution makes every operation trivially atomic; the accesses are not
+	// entered into the lockset analysis (atomic accesses do not race with each other)
+	atomicCell := func(fn *ssa.Function, args []value) pointer {
+		p := args[0].(pointer)
+		if fn.Signature.Recv() != nil {
+			// typed values (atomic.Int64 etc.): the cell is the field named v
+			if pt, ok := fn.Signature.Recv().Type().Underlying().(*types.Pointer); ok {
+				if st, ok := pt.Elem().Underlying().(*types.Struct); ok {
+					for i := 0; i < st.NumFields(); i++ {
+						if st.Field(i).Name() == "v" {
+							np := append(append([]int{}, p.path...), i)
+							return pointer{obj: p.obj, path: np}
+						}
+					}
+				}
+			}
+			panic(unsupported("sync/atomic typed value without field v: " + fn.String()))
+		}
+		return p
 	}
-	stubs["sync/atomic.LoadInt32"] = stubs["sync/atomic.LoadUint32"]
-	stubs["sync/atomic.LoadInt64"] = stubs["sync/atomic.LoadUint32"]
-	stubs["sync/atomic.LoadUint64"] = stubs["sync/atomic.LoadUint32"]
+	atomicOp := func(kind string) intrinsicFn {
+		return func(m *Machine, fr *frame, fn *ssa.Function, args []value) value {
+			m.syncDepth++
+			defer func() { m.syncDepth-- }()
+			p := atomicCell(fn, args)
+			switch kind {
+			case "load":
+				return fr.load(p)
+			case "store":
+				fr.store(p, args[1])
+				return nil
+			case "swap":
+				old := fr.load(p)
+				fr.store(p, args[1])
+				return old
+			case "add":
+				nv := mkBin(opAdd, fr.load(p).(*Term), args[1].(*Term))
+				fr.store(p, nv)
+				return nv
+			case "cas":
+				old := fr.load(p).(*Term)
+				if m.branch(mkEq(old, args[1].(*Term)), fr) {
+					fr.store(p, args[2])
+					return termTrue
+				}
+				return termFalse
+			}
+			panic(unsupported("sync/atomic " + kind))
+		}
+	}
+	for _, ty := range []string{"Int32", "Int64", "Uint32", "Uint64", "Uintptr"} {
+		stubs["sync/atomic.Load"+ty] = atomicOp("load")
+		stubs["sync/atomic.Store"+ty] = atomicOp("store")
+		stubs["sync/atomic.Swap"+ty] = atomicOp("swap")
+		stubs["sync/atomic.Add"+ty] = atomicOp("add")
+		stubs["sync/atomic.CompareAndSwap"+ty] = atomicOp("cas")
+		stubs["(*sync/atomic."+ty+").Load"] = atomicOp("load")
+		stubs["(*sync/atomic."+ty+").Store"] = atomicOp("store")
+		stubs["(*sync/atomic."+ty+").Swap"] = atomicOp("swap")
+		stubs["(*sync/atomic."+ty+").Add"] = atomicOp("add")
+		stubs["(*sync/atomic."+ty+").CompareAndSwap"] = atomicOp("cas")
+	}
 	// mutexes: single-threaded execution never blocks, but the set of held locks is tracked for the
 	// lockset (Eraser-style) analysis of accesses to package-level variables (C19)
 	lockKey := func(v value) string {
@@ -757,6 +879,9 @@ func init() {
 		}
 		if !m.onces[key] {
 			m.onces[key] = true
+			// everything the body writes happens-before every return of Do
+			m.syncDepth++
+			defer func() { m.syncDepth-- }()
 			m.call(args[1], nil, fr, nil)
 		}
 		return nil
